@@ -293,6 +293,10 @@ class ExecExpr(ExecBase):
         if z3.is_true(z3.simplify(guard)):
             yield from self.eval(node, st)
             return
+        if z3.is_false(z3.simplify(guard)):
+            # the operand is never evaluated (e.g. `x is None or x.f` with x the literal None)
+            yield st, V("bool", z3.BoolVal(False))
+            return
         s = st.fork()
         s.assume(guard)
         base = len(s.pc)
